@@ -39,6 +39,23 @@ def run(ctx):
         n = len(rows)
         desc = dict(fam.describe(), rows=rows.tolist())
         est = fam.make()
+        # an estimator re-configured through the public set_params after construction (a nested vigilance moved
+        # half-way towards 1) is as much "configured" as a freshly constructed one: training must leave it alone too
+        if hasattr(est, "get_params") and r.random() < 0.5:
+            try:
+                with quiet():
+                    gp = est.get_params(deep=True)
+                keys = [k for k, v in gp.items() if (k == "rho" or k.endswith("__rho")) and isinstance(v, float) and 0.0 <= v < 1.0
+                        and "Bayesian" not in type(gp.get(k.rsplit("__", 1)[0], est)).__name__]
+                if keys:
+                    k_ = r.choice(sorted(keys))
+                    with quiet():
+                        est.set_params(**{k_: (gp[k_] + 1.0) / 2.0})
+                    desc = dict(desc, set_params_after_construction={k_: (gp[k_] + 1.0) / 2.0})
+                    cov.hit("reconfigured-by-set_params-before-training" + (":nested" if "__" in k_ else ""))
+            except Exception as e:
+                cov.hit(f"set_params-raised:{name}:{exc_enum(e)}")
+                est = fam.make()
         before = params_tree(est)
         parts = gen.compositions(r, n)
         j = 0
